@@ -24,6 +24,8 @@ def pkgdir_for(demo, readme):
     return cands[0] if cands else None
 def confirm(mdir):
     name = mdir.rstrip('/').split('/')[-2] + '-' + mdir.rstrip('/').split('/')[-1]
+    if os.environ.get('SEED_GLOB'):
+        name = os.path.basename(mdir.rstrip('/'))
     out = {'mutant': name}
     patch = os.path.join(mdir, 'patch.diff'); demo = os.path.join(mdir, 'zz_seed_demo_test.go')
     if not (os.path.exists(patch) and os.path.exists(demo)):
@@ -57,9 +59,10 @@ def confirm(mdir):
         sh('git -C /repo worktree remove --force %s' % wt, '/')
     return out
 if __name__ == '__main__':
-    mdirs = sorted(glob.glob('/tmp/seed-out/C*/m*/'))
+    mdirs = sorted(glob.glob(os.environ.get('SEED_GLOB') or '/tmp/seed-out/C*/m*/'))
+    logf = os.environ.get('SEED_LOG') or '/tmp/seed-out/confirm.jsonl'
     if len(sys.argv) > 1: mdirs = [m for m in mdirs if any(a in m for a in sys.argv[1:])]
     with concurrent.futures.ThreadPoolExecutor(max_workers=3) as ex:
         for r in ex.map(confirm, mdirs):
             print(json.dumps(r), flush=True)
-            open('/tmp/seed-out/confirm.jsonl', 'a').write(json.dumps(r) + '\n')
+            open(logf, 'a').write(json.dumps(r) + '\n')
